@@ -3,6 +3,7 @@ import OPModel.Drive.C19
 import OPModel.Drive.C06
 import OPModel.Drive.C01
 import OPModel.Drive.C08
+import OPModel.Drive.C05
 
 open OP
 
@@ -10,6 +11,7 @@ def handle (line : String) : String :=
   match tokens line with
   | "stream" :: args => Drive.stream Gen.isoOffset args
   | "coll" :: args => Drive.coll args
+  | "pcascade" :: args => Drive.pcascade args
   | "cascade" :: args => Drive.cascade args
   | "insert" :: args => Drive.insert args
   | "pinch" :: args => Drive.pinch args
